@@ -28,6 +28,8 @@ var sweepPool = []string{
 	// containers whose keys / members are descendants of the built-in types (unchecked type assertions live behind these)
 	"[[\"k\".bear, 1], [\"j\", 2]]", "[['s, 1], [Str.bear.new(\"t\"), 2]]", "[1.bear, 2, Int.bear.new(3)]", "{a: 1.bear, b: \"s\".bear}", "%{\"k\".bear: 1, 1.bear: 2}",
 	"(1.bear:5.bear)", "(\"a\".bear:\"c\")", "[[1, 2].bear, [3].bear]", "[{a: 1}.bear, {a: 2}]", "[1, 2, 3, 4, 5, 6, 7]",
+	// non-finite and extreme floats (they cannot be written as literals)
+	"\"NaN\".F", "\"Inf\".F", "\"-Inf\".F", "((-1.0) ** 0.5)", "1.0e300", "1.0e-300", "(0.0 * -1.0)", "9.3e18", "%{[1]: 1}", "%{[2]: 1}", "%{[1]: 1, 2: 3}", "%{{a: 1}: 2}",
 }
 
 // consumers of a result: the constructs that destructure a value with type assertions of their own
